@@ -148,6 +148,12 @@ func renamePtKey(in any, to, from string) error {
 		return fmt.Errorf("key(from) %s not found", from)
 	}
 
+	// the destination is replaced as a whole: it must not survive as a key of
+	// the other kind, and the key index moves together with the value
+	pt.Delete(to)
+	delete(pt.Meta, from)
+	pt.Meta[to] = v
+
 	switch v.PtFlag { //nolint:exhaustive
 	case input.PtField:
 		if v, ok := pt.Fields[from]; ok {
